@@ -53,6 +53,28 @@ impl fmt::Display for CompressionLevelOutOfRangeError {
     }
 }
 
+/// Writer which fails instead of growing its output beyond a limit.
+struct LimitedWriter<'a> {
+    output: &'a mut Vec<u8>,
+    limit: usize,
+}
+
+impl std::io::Write for LimitedWriter<'_> {
+    fn write(&mut self, buf: &[u8]) -> std::io::Result<usize> {
+        if buf.len() > self.limit.saturating_sub(self.output.len()) {
+            return Err(std::io::Error::new(
+                std::io::ErrorKind::InvalidData,
+                "decompressed chunk is larger than expected",
+            ));
+        }
+        self.output.extend_from_slice(buf);
+        Ok(buf.len())
+    }
+    fn flush(&mut self) -> std::io::Result<()> {
+        Ok(())
+    }
+}
+
 #[derive(Debug, Clone, Copy, PartialEq, Eq)]
 pub enum CompressionAlgorithm {
     #[cfg(feature = "lzma-compression")]
@@ -82,22 +104,27 @@ impl CompressionAlgorithm {
         size_hint: usize,
     ) -> Result<Bytes, CompressionError> {
         let mut output = Vec::with_capacity(size_hint);
+        // A chunk never decompresses to more than its source size.
+        let mut limited_output = LimitedWriter {
+            output: &mut output,
+            limit: size_hint,
+        };
         match self {
             #[cfg(feature = "lzma-compression")]
             CompressionAlgorithm::Lzma => {
                 use lzma::LzmaWriter;
                 use std::io::prelude::*;
-                let mut f = LzmaWriter::new_decompressor(&mut output)?;
+                let mut f = LzmaWriter::new_decompressor(&mut limited_output)?;
                 f.write_all(&compressed)?;
                 f.finish()?;
             }
             #[cfg(feature = "zstd-compression")]
             CompressionAlgorithm::Zstd => {
-                zstd::stream::copy_decode(&compressed[..], &mut output)?;
+                zstd::stream::copy_decode(&compressed[..], &mut limited_output)?;
             }
             CompressionAlgorithm::Brotli => {
                 let mut input_slice = &compressed[..];
-                brotli_decompressor::BrotliDecompress(&mut input_slice, &mut output)?;
+                brotli_decompressor::BrotliDecompress(&mut input_slice, &mut limited_output)?;
             }
         }
         Ok(Bytes::from(output))
